@@ -104,6 +104,10 @@ Apply(tree, depth, a) ==
     [] a.op \in {"get", "getpos", "len", "noop", "obs"} -> Outcome(tree, "ok")      \* observers
     [] a.op = "hwrite" ->                   \* write through a handle obtained earlier by getPayloadRef(*pt)
          Outcome(PutPath(tree, a.pt, Leaf(WriteVal(a.kind, AtPath(tree, a.pt).v, a.v))), "ok")
+    [] a.op = "dlookup" ->                  \* deprecated insertOrLookup(c) without a value: the element is created if absent (like getPayloadRef)
+         Outcome(Ensure(tree, Append(a.path, a.c), depth), "ok")
+    [] a.op = "dinsert" ->                  \* deprecated insert(c, v) on a leaf fiber: the coordinate holds v afterwards, stored once
+         Outcome(PutPath(Ensure(tree, Append(a.path, a.c), depth), Append(a.path, a.c), Leaf(a.v)), "ok")
     [] a.op = "getposref" ->                \* getPositionRef(c) on the fiber at path: creates the element if absent
          Outcome(Ensure(tree, Append(a.path, a.c), depth), "ok")
     [] OTHER ->
@@ -125,6 +129,8 @@ Enabled(tree, depth, a) ==
     [] a.op = "hwrite"     -> Len(a.pt) = depth /\ AtPath(tree, a.pt).k = "L"
     [] a.op = "get"        -> /\ a.path \in FiberPaths(tree, depth) /\ Len(a.path) + Len(a.pt) <= depth /\ Len(a.pt) >= 1
                               /\ LegalSP(FiberAt(tree, a.path).e, a.pt[1], a.sp) /\ (a.sp # -1 => Len(a.pt) = 1)
+    [] a.op = "dlookup" -> a.path \in FiberPaths(tree, depth)
+    [] a.op = "dinsert" -> a.path \in LeafPaths(tree, depth)
     [] a.op \in {"getpos", "getposref"} -> a.path \in FiberPaths(tree, depth) /\ LegalSP(FiberAt(tree, a.path).e, a.c, a.sp)
     [] a.op \in {"append", "extend", "fimul", "fiadd", "updpayloads"} -> a.path \in LeafPaths(tree, depth)
     [] a.op = "setitem"    -> a.path \in LeafPaths(tree, depth) /\ a.pos < Len(FiberAt(tree, a.path).e)
